@@ -310,6 +310,20 @@ VerifyC ==
   /\ \/ \E m \in Msgs : op' = [name |-> "verify", m |-> m, ok |-> VerifyOK(st.kt, st.who, m)]
      \* every single-bit / length mutation of the signed message (the harness enumerates them)
      \/ op' = [name |-> "verifymut", ok |-> FALSE]
+\* Protobuf-level surgery on the SERIALISED key (unknown field added, field duplicated, fields reordered,
+\* non-minimal varints, trailing bytes, another encoding of the same point).  Whenever the real decoder
+\* accepts the edited bytes and the decoded key Equals the original, it IS the original key: the state
+\* keeps (kt, who), so every later transition (IDFromPublicKey, MarshalPublicKey, matches, equals, sign,
+\* GetPublic ...) demands the original's ID, bytes and behaviour:
+\*     decode(edit(marshal(k))) accepted /\ equal  =>  ID, marshalled form, verification as for k.
+\* (When the decoder rejects every concrete variant of an edit kind the walk ends there.)
+Surgeries == {"x-unknown-append", "x-unknown-prepend", "x-unknown-middle", "x-dup-field", "x-reorder",
+              "x-nonminimal-tag", "x-nonminimal-len", "x-nonminimal-value", "x-trailing", "x-reencode"}
+DecodeEditedC ==
+  /\ st.form \in {"pkpb", "skpb"} /\ st.sig = NoSig
+  /\ \E e \in Surgeries :
+       /\ st' = [st EXCEPT !.form = IF st.form = "pkpb" THEN "pk" ELSE "sk", !.via = e]
+       /\ op' = [name |-> "decodex", edit |-> e, from |-> st.form]
 \* equality / ID-matching matrix against every reference key
 EqualsC ==
   /\ UNCHANGED st /\ st.sig = NoSig
@@ -329,14 +343,14 @@ LenC ==
   /\ UNCHANGED st
   /\ \E n \in 40..45 : op' = [name |-> "idlen", n |-> n, embed |-> (n <= 42)]
 
-NextC == ConvertC \/ ExtractC \/ PickC \/ SignC \/ MutSigC \/ VerifyC \/ EqualsC \/ MutFormC \/ LenC
+NextC == ConvertC \/ DecodeEditedC \/ ExtractC \/ PickC \/ SignC \/ MutSigC \/ VerifyC \/ EqualsC \/ MutFormC \/ LenC
 
 \* Verify succeeds only for the signer's key and the signed message, unmutated
 AxiomC ==
   [][(op'.name = "verify" /\ op'.ok) =>
         (st.sig.kt = st.kt /\ st.sig.who = st.who /\ st.sig.m = op'.m /\ ~st.sig.mut)]_vars
 \* conversions never change whose key / ID the datum is
-IdentityC == [][(op'.name \in {"conv", "extract"}) => (st'.kt = st.kt /\ st'.who = st.who)]_vars
+IdentityC == [][(op'.name \in {"conv", "extract", "decodex"}) => (st'.kt = st.kt /\ st'.who = st.who)]_vars
 TypeOKC ==
   st.part = "C" => /\ st.kt \in KeyTypes /\ st.who \in Who
                    /\ st.form \in {c.f : c \in Conv} \cup {c.t : c \in Conv}
